@@ -189,8 +189,8 @@ Proof.
            rewrite F6, Htxq, app_assoc. reflexivity.
         -- rewrite J. eexists; split; [reflexivity|]. constructor; simpl; rewrite ?PT; try fin.
   - (* Radio *)
-    destruct (txq s) as [|p q] eqn:Q; intros E; inv E; cbn [mstep]; rewrite <- Htxq, Q.
-    + eexists; split; [reflexivity|]. constructor; auto.
+    destruct (txq s) as [|p q] eqn:Q; intros E; inv E; cbn [mstep]; rewrite <- Htxq.
+    + eexists; split; [reflexivity|]. constructor; auto; congruence.
     + rewrite pdu_eqb_refl. eexists; split; [reflexivity|]. constructor; simpl; try fin.
   - (* MaxTx *)
     destruct (in_size_range n) eqn:IR; intros E; inv E; cbn [mstep]; rewrite IR.
